@@ -38,6 +38,8 @@ pub struct Net {
     pub sent_hist: HashMap<(Addr, Addr), BTreeMap<i32, Vec<u8>>>,
     /// number of input bytes per frame each sender uses towards each receiver
     pub frame_bytes: HashMap<(Addr, Addr), usize>,
+    /// bytes per player input (1, or 4 for the wide-input configuration)
+    pub width: usize,
     /// handshake nonces renamed per requesting link, in order of first appearance
     nonce_ids: HashMap<(Addr, Addr), HashMap<u32, u32>>,
     /// magic number registered for each directed link (first packet sent on it)
@@ -146,7 +148,7 @@ impl Net {
                         (
                             frames
                                 .iter()
-                                .map(|f| json!(f.iter().map(|b| *b as u64).collect::<Vec<_>>()))
+                                .map(|f| json!(crate::dec_frame(self.width, f)))
                                 .collect::<Vec<_>>(),
                             true,
                         )
